@@ -123,9 +123,15 @@ fn judge_c03(c: &Case, out: &RunOut) -> Outcome {
         .class_if(!c.ordered, "plain-queue");
     o = o.class_if(out.foreign_pushes >= 1, "push-into-another-threads-local-queue").class_if(out.lock_contended >= 1, "owner-lock-contended");
     if out.owner_overlaps > 0 {
+        let (a, b) = out.overlap_pair.clone().unwrap_or_else(|| ("?".into(), "?".into()));
+        let mut pair = [a, b];
+        pair.sort();
         o.set_fail(
-            format!("C03/{k}/two-owners-of-one-ring-at-once"),
-            format!("{} owner operations (push / pop / steal-into) of one local ring overlapped; the ring supports one owner at a time, in the real ring this loses or duplicates items ({} pushes went into another thread's local queue)", out.owner_overlaps, out.foreign_pushes),
+            format!("C03/{k}/two-owners-of-one-ring-at-once/{}+{}", pair[0], pair[1]),
+            format!(
+                "{} owner-side operations of one local ring overlapped (first: `{}` next to `{}`); the ring supports one owner at a time -- in the real ring push/pop/steal-into overlaps lose or duplicate items, and spare_capacity next to a push underflows ({} pushes went into another thread's local queue)",
+                out.owner_overlaps, pair[0], pair[1], out.foreign_pushes
+            ),
         );
         return o;
     }
